@@ -1042,3 +1042,264 @@ Proof.
   rewrite skip_form_dbg. destruct (skip_form (S (length bs)) false e sb (at_form s) bs) as [[sb' r]| | |];
     cbn [bind]; try reflexivity. apply IH.
 Qed.
+
+(* ------------------------------------------------------------------ *)
+(** * LEB128 round trips (spec encoder, model reader) *)
+
+Lemma pow2_shift_lt w s : 1 <= w -> w * 2 ^ s < two64 -> s < 64.
+Proof.
+  intros H1 H2. apply (N.pow_lt_mono_r_iff 2); [lia|].
+  change (2 ^ 64) with two64. nia.
+Qed.
+
+Lemma uleb_loop_enc : forall f w result shift rest dbg,
+  1 <= w -> w < 2 ^ (7 * N.of_nat f) -> w * 2 ^ shift < two64 -> result < 2 ^ shift ->
+  uleb_loop dbg result shift (enc_uleb_fuel f w ++ rest) = Ok (result + w * 2 ^ shift, rest).
+Proof.
+  induction f as [|f IH]; intros w result shift rest dbg W1 Wf Wb Rb.
+  - change (2 ^ (7 * N.of_nat 0)) with 1 in Wf. lia.
+  - pose proof (pow2_shift_lt _ _ W1 Wb) as S64.
+    set (P := 2 ^ shift) in *.
+    assert (P63 : shift = 63 -> w < 2).
+    { intros E. unfold P in Wb. rewrite E in Wb. change (2 ^ 63) with 9223372036854775808 in Wb.
+      unfold two64 in Wb. lia. }
+    cbn [enc_uleb_fuel]. destruct (N.ltb_spec w 128) as [Lw|Lw].
+    + cbn [app uleb_loop]. rewrite b2n_n2b_small by lia.
+      replace ((shift =? 63) && negb (w =? 0) && negb (w =? 1)) with false.
+      2:{ destruct (N.eqb_spec shift 63) as [E|E]; [|reflexivity]. specialize (P63 E).
+          replace w with 1 by lia. reflexivity. }
+      rewrite shl64_small by assumption. cbn [bind].
+      rewrite low7_mod, (N.mod_small w 128) by assumption.
+      rewrite N.shiftl_mul_pow2. fold P. rewrite wrap64_small by assumption.
+      unfold P. rewrite lor_mul_add by assumption.
+      rewrite has_cont_byte by lia. destruct (N.leb_spec 128 w); [lia|]. reflexivity.
+    + cbn [app uleb_loop].
+      pose proof (N.mod_lt w 128 ltac:(discriminate)) as Mlt.
+      pose proof (N.div_mod' w 128) as DM.
+      set (q := w / 128) in *. set (m := w mod 128) in *.
+      rewrite b2n_n2b_small by lia.
+      replace (shift =? 63) with false by (symmetry; apply N.eqb_neq; intros E; specialize (P63 E); lia).
+      cbn [andb].
+      rewrite shl64_small by assumption. cbn [bind].
+      assert (L7 : low7 (128 + m) = m).
+      { rewrite low7_mod. replace (128 + m) with (m + 1 * 128) by lia.
+        rewrite N.mod_add by discriminate. apply N.mod_small. assumption. }
+      rewrite L7. rewrite N.shiftl_mul_pow2. fold P.
+      rewrite wrap64_small by nia.
+      unfold P at 1. rewrite lor_mul_add by assumption. fold P.
+      rewrite has_cont_byte by lia. destruct (N.leb_spec 128 (128 + m)); [|lia].
+      assert (P7 : 2 ^ (shift + 7) = P * 128).
+      { rewrite N.pow_add_r. reflexivity. }
+      rewrite IH.
+      * rewrite P7. f_equal. f_equal. nia.
+      * nia.
+      * replace (7 * N.of_nat (S f)) with (7 * N.of_nat f + 7) in Wf by lia.
+        rewrite N.pow_add_r in Wf. change (2 ^ 7) with 128 in Wf. nia.
+      * rewrite P7. nia.
+      * rewrite P7. nia.
+Qed.
+
+Lemma read_uleb128_enc dbg v rest : v < two64 -> read_uleb128 dbg (enc_uleb v ++ rest) = Ok (v, rest).
+Proof.
+  intros H. unfold enc_uleb.
+  change (enc_uleb_fuel 19 v)
+    with (if v <? 128 then [n2b v] else n2b (128 + v mod 128) :: enc_uleb_fuel 18 (v / 128)).
+  destruct (N.ltb_spec v 128) as [L|L].
+  - cbn [app read_uleb128]. rewrite b2n_n2b_small by lia.
+    rewrite has_cont_byte by lia. destruct (N.leb_spec 128 v); [lia|]. reflexivity.
+  - cbn [app read_uleb128].
+    pose proof (N.mod_lt v 128 ltac:(discriminate)) as Mlt.
+    pose proof (N.div_mod' v 128) as DM.
+    set (q := v / 128) in *. set (m := v mod 128) in *.
+    rewrite b2n_n2b_small by lia.
+    rewrite has_cont_byte by lia. destruct (N.leb_spec 128 (128 + m)); [|lia].
+    assert (L7 : low7 (128 + m) = m).
+    { rewrite low7_mod. replace (128 + m) with (m + 1 * 128) by lia.
+      rewrite N.mod_add by discriminate. apply N.mod_small. assumption. }
+    rewrite L7, uleb_loop_enc.
+    + change (2 ^ 7) with 128. f_equal. f_equal. lia.
+    + lia.
+    + change (2 ^ (7 * N.of_nat 18)) with 85070591730234615865843651857942052864. unfold two64 in H. lia.
+    + change (2 ^ 7) with 128. lia.
+    + change (2 ^ 7) with 128. lia.
+Qed.
+
+(* ---------- signed ---------- *)
+Lemma to_i64_small x : x < two63 -> to_i64 x = Z.of_N x.
+Proof.
+  intros H. unfold to_i64, to_signed, wrapN. change (2 ^ 64) with two64. change (2 ^ (64 - 1)) with two63.
+  rewrite N.mod_small by (unfold two63, two64 in *; lia).
+  destruct (N.ltb_spec x two63); [reflexivity|lia].
+Qed.
+
+Lemma to_i64_big x : two63 <= x -> x < two64 -> to_i64 x = (Z.of_N x - 18446744073709551616)%Z.
+Proof.
+  intros H1 H2. unfold to_i64, to_signed, wrapN. change (2 ^ 64) with two64. change (2 ^ (64 - 1)) with two63.
+  rewrite N.mod_small by assumption.
+  destruct (N.ltb_spec x two63); [lia|reflexivity].
+Qed.
+
+Lemma pow_split a b : b <= a -> 2 ^ a = 2 ^ (a - b) * 2 ^ b.
+Proof. intros H. rewrite <- N.pow_add_r. f_equal. lia. Qed.
+
+Lemma leb_shift_cases s : leb_shift s -> s <= 56 \/ s = 63.
+Proof.
+  intros [H1 H2].
+  assert (s = 7 * (s / 7)) by (rewrite (N.div_mod' s 7) at 1; lia).
+  assert (s / 7 <= 9) by (apply N.div_le_upper_bound; lia).
+  lia.
+Qed.
+
+Lemma pow2_pos s : 0 < 2 ^ s.
+Proof. apply N.neq_0_lt_0, N.pow_nonzero. discriminate. Qed.
+
+Lemma pow2_le_56 s : s <= 56 -> 2 ^ s <= 72057594037927936.
+Proof. intros H. change 72057594037927936 with (2 ^ 56). apply N.pow_le_mono_r; lia. Qed.
+
+(* last byte of a signed LEB128 number *)
+Lemma sleb_loop_last z result shift rest dbg :
+  leb_shift shift ->
+  (-64 <= z < 64)%Z ->
+  (- Z.of_N (2 ^ (63 - shift)) <= z < Z.of_N (2 ^ (63 - shift)))%Z ->
+  result < 2 ^ shift ->
+  sleb_loop dbg result shift (n2b (Z.to_N (z mod 128)%Z) :: rest)
+  = Ok ((Z.of_N result + z * Z.of_N (2 ^ shift))%Z, rest).
+Proof.
+  intros LS Zs Zr Rb.
+  set (d := Z.to_N (z mod 128)%Z).
+  assert (Dlt : d < 128) by (unfold d; lia).
+  assert (Dz : Z.of_N d = (z mod 128)%Z) by (unfold d; lia).
+  cbn [sleb_loop]. rewrite b2n_n2b_small by lia.
+  pose proof (pow2_pos shift) as Ppos.
+  assert (HP : 2 ^ 63 = 2 ^ (63 - shift) * 2 ^ shift) by (apply pow_split; destruct LS; lia).
+  change (2 ^ 63) with two63 in HP.
+  set (P := 2 ^ shift) in *. set (H := 2 ^ (63 - shift)) in *.
+  destruct (leb_shift_cases _ LS) as [S56|S63].
+  - (* shift + 7 < 64 *)
+    replace (shift =? 63) with false by (symmetry; apply N.eqb_neq; lia). cbn [andb].
+    rewrite shl64_small by lia. cbn [bind].
+    rewrite low7_mod, (N.mod_small d 128) by assumption.
+    rewrite N.shiftl_mul_pow2. fold P.
+    pose proof (pow2_le_56 _ S56) as P56. fold P in P56.
+    rewrite wrap64_small by (unfold two64; nia).
+    unfold P. rewrite lor_mul_add by assumption. fold P.
+    rewrite has_cont_byte by lia. destruct (N.leb_spec 128 d); [lia|].
+    destruct (N.ltb_spec (shift + 7) 64); [|lia]. cbn [andb].
+    rewrite sign_bit_byte by assumption.
+    assert (P7 : 2 ^ (shift + 7) = P * 128) by (rewrite N.pow_add_r; reflexivity).
+    destruct (N.leb_spec 64 d) as [Neg|Pos].
+    + (* negative *)
+      assert (Zneg : (z < 0)%Z) by lia.
+      assert (Dval : Z.of_N d = (z + 128)%Z) by lia.
+      rewrite shl64_small by assumption. cbn [bind].
+      assert (HQ : two64 = 2 ^ (64 - (shift + 7)) * 2 ^ (shift + 7)) by (apply (pow_split 64); lia).
+      set (Q := 2 ^ (shift + 7)) in *. set (Q' := 2 ^ (64 - (shift + 7))) in *.
+      assert (Qpos : 0 < Q) by apply pow2_pos.
+      assert (Q'pos : 0 < Q') by apply pow2_pos.
+      assert (Ones : wrap64 (N.shiftl (two64 - 1) (shift + 7)) = (Q' - 1) * Q).
+      { unfold wrap64. rewrite N.shiftl_mul_pow2. fold Q.
+        transitivity (((two64 - 1) * Q) mod (Q' * Q)); [rewrite <- HQ; reflexivity|].
+        rewrite N.mul_mod_distr_r by lia. f_equal.
+        rewrite HQ. replace (Q' * Q - 1) with ((Q' - 1) + (Q - 1) * Q') by nia.
+        rewrite N.mod_add by lia. apply N.mod_small. lia. }
+      assert (DP : d * P <= 127 * P) by (apply N.mul_le_mono_r; lia).
+      rewrite Ones. unfold Q. rewrite lor_mul_add by (fold Q; lia). fold Q.
+      rewrite to_i64_big.
+      * f_equal. f_equal. unfold two64 in HQ. nia.
+      * unfold two63, two64 in *. nia.
+      * unfold two64 in *. nia.
+    + (* non-negative *)
+      assert (Zpos : (0 <= z)%Z) by lia.
+      assert (Dval : Z.of_N d = z) by lia.
+      rewrite to_i64_small by (unfold two63; nia).
+      f_equal. f_equal. nia.
+  - (* shift = 63: the byte is 0 or 0x7f *)
+    assert (H1 : H = 1) by (unfold H; rewrite S63; reflexivity).
+    assert (Z01 : z = 0%Z \/ z = (-1)%Z) by lia.
+    assert (HPv : P = two63) by (unfold P; rewrite S63; reflexivity).
+    rewrite S63. cbn [N.eqb Pos.eqb andb].
+    destruct Z01 as [-> | ->].
+    + change d with 0. cbn [N.eqb negb andb].
+      change (shl64 dbg (low7 0) 63) with (@Ok N 0). cbn [bind].
+      change (has_cont 0) with false. change (63 + 7 <? 64) with false. cbn [andb].
+      rewrite N.lor_0_r.
+      rewrite to_i64_small by (rewrite <- HPv; assumption). f_equal. f_equal. lia.
+    + change d with 127. cbn [N.eqb Pos.eqb negb andb].
+      change (shl64 dbg (low7 127) 63) with (@Ok N two63). cbn [bind].
+      change (has_cont 127) with false. change (63 + 7 <? 64) with false. cbn [andb].
+      change two63 with (1 * 2 ^ 63). rewrite lor_mul_add by (change (2 ^ 63) with two63; lia).
+      change (1 * 2 ^ 63) with two63.
+      rewrite to_i64_big by (unfold two63, two64 in *; lia).
+      f_equal. f_equal. unfold two63 in *. lia.
+Qed.
+
+Lemma enc_sleb_fuel_S f z :
+  enc_sleb_fuel (S f) z =
+  if ((-64 <=? z) && (z <? 64))%Z then [n2b (Z.to_N (z mod 128)%Z)]
+  else n2b (128 + Z.to_N (z mod 128)%Z) :: enc_sleb_fuel f (z / 128)%Z.
+Proof. reflexivity. Qed.
+
+Lemma sleb_loop_enc : forall f z result shift rest dbg,
+  leb_shift shift ->
+  (- Z.of_N (2 ^ (63 - shift)) <= z < Z.of_N (2 ^ (63 - shift)))%Z ->
+  (- 64 * 128 ^ Z.of_nat f <= z < 64 * 128 ^ Z.of_nat f)%Z ->
+  result < 2 ^ shift ->
+  sleb_loop dbg result shift (enc_sleb_fuel (S f) z ++ rest)
+  = Ok ((Z.of_N result + z * Z.of_N (2 ^ shift))%Z, rest).
+Proof.
+  induction f as [|f IH]; intros z result shift rest dbg LS Zr Zf Rb.
+  - change (128 ^ Z.of_nat 0)%Z with 1%Z in Zf.
+    cbn [enc_sleb_fuel]. destruct ((-64 <=? z)%Z && (z <? 64)%Z) eqn:C; [|lia].
+    cbn [app]. apply sleb_loop_last; auto; lia.
+  - rewrite enc_sleb_fuel_S. destruct ((-64 <=? z)%Z && (z <? 64)%Z) eqn:C.
+    + cbn [app]. apply sleb_loop_last; auto; lia.
+    + (* a continuation byte *)
+      set (d := Z.to_N (z mod 128)%Z).
+      assert (Dlt : d < 128) by (unfold d; lia).
+      assert (Dz : Z.of_N d = (z mod 128)%Z) by (unfold d; lia).
+      assert (Zout : (z < -64 \/ 64 <= z)%Z) by lia.
+      assert (S56 : shift <= 56).
+      { destruct (leb_shift_cases _ LS) as [?|S63]; [assumption|]. exfalso.
+        rewrite S63 in Zr. change (2 ^ (63 - 63)) with 1 in Zr. lia. }
+      cbn [app sleb_loop]. rewrite b2n_n2b_small by lia.
+      replace (shift =? 63) with false by (symmetry; apply N.eqb_neq; lia). cbn [andb].
+      rewrite shl64_small by lia. cbn [bind].
+      assert (L7 : low7 (128 + d) = d).
+      { rewrite low7_mod. replace (128 + d) with (d + 1 * 128) by lia.
+        rewrite N.mod_add by discriminate. apply N.mod_small. assumption. }
+      rewrite L7, N.shiftl_mul_pow2.
+      pose proof (pow2_pos shift) as Ppos. pose proof (pow2_le_56 _ S56) as P56.
+      assert (P7 : 2 ^ (shift + 7) = 2 ^ shift * 128) by (rewrite N.pow_add_r; reflexivity).
+      assert (HH : 2 ^ (63 - shift) = 2 ^ (63 - (shift + 7)) * 128).
+      { replace (63 - shift) with (63 - (shift + 7) + 7) by lia. rewrite N.pow_add_r. reflexivity. }
+      set (P := 2 ^ shift) in *. set (H' := 2 ^ (63 - (shift + 7))) in *.
+      assert (DP : d * P <= 127 * P) by (apply N.mul_le_mono_r; lia).
+      rewrite wrap64_small by (unfold two64; lia).
+      unfold P. rewrite lor_mul_add by assumption. fold P.
+      rewrite has_cont_byte by lia. destruct (N.leb_spec 128 (128 + d)); [|lia].
+      rewrite IH.
+      * f_equal. f_equal. rewrite P7.
+        pose proof (Z.div_mod z 128 ltac:(lia)) as DM.
+        rewrite N2Z.inj_add, !N2Z.inj_mul, Dz. change (Z.of_N 128) with 128%Z.
+        set (PZ := Z.of_N P). set (q := (z / 128)%Z) in *. set (m := (z mod 128)%Z) in *.
+        clearbody q m. subst z. ring.
+      * apply leb_shift_next; [assumption|lia].
+      * fold H'. rewrite HH in Zr. lia.
+      * replace (Z.of_nat (S f)) with (Z.of_nat f + 1)%Z in Zf by lia.
+        rewrite Z.pow_add_r in Zf by lia. change (128 ^ 1)%Z with 128%Z in Zf.
+        assert (0 < 128 ^ Z.of_nat f)%Z by (apply Z.pow_pos_nonneg; lia). lia.
+      * rewrite P7. lia.
+Qed.
+
+Lemma read_sleb128_enc dbg z rest :
+  (-9223372036854775808 <= z < 9223372036854775808)%Z ->
+  read_sleb128 dbg (enc_sleb z ++ rest) = Ok (z, rest).
+Proof.
+  intros H. unfold read_sleb128, enc_sleb.
+  rewrite sleb_loop_enc.
+  - f_equal. f_equal. change (Z.of_N (2 ^ 0)) with 1%Z. lia.
+  - apply leb_shift_0.
+  - change (Z.of_N (2 ^ (63 - 0))) with 9223372036854775808%Z. lia.
+  - change (128 ^ Z.of_nat 9)%Z with 9223372036854775808%Z. lia.
+  - reflexivity.
+Qed.
